@@ -124,7 +124,8 @@ def C12_admit(bl_ne: bool, bl_hit: bool, wl_ne: bool, wl_hit: bool, vi: int, ts_
 
 
 # ---- list files: real RegexList.read_list on generated files -----------------------------------
-LINES = ['^blocked\\.', 'secret$', '# a comment', '', '   ', '(unclosed', 'b.d']
+LINES = ['^blocked\\.', 'secret$', '# a comment', '', '   ', '(unclosed', 'b.d', '^(tmp|scratch)\\.', '\\.(\\w+)\\.\\1\\.']
+PROBES = ['blocked.x', 'my.secret', 'bxd', 'dc1.web.web.cpu', 'tmp.a', 'x.tmp.a', 'zzz', '(unclosed', 'a.b.c.d']
 from vp_lib.api import scratch_dir  # noqa: E402
 _TMP = scratch_dir('vp-c12-')
 _FILES = {}
@@ -174,11 +175,17 @@ def C12_read_list(a: int, b: int, c: int) -> bool:
     rl.read_list()
   finally:
     regexlist.log = old_log
-  want = [r.pattern for r in (_valid(LINES[i]) for i in (a, b, c) if i < len(LINES)) if r is not None]
-  got = [r.pattern for r in rl.regex_list]
+  want = [r for r in (_valid(LINES[i]) for i in (a, b, c) if i < len(LINES)) if r is not None]
   cover('read')
-  # every valid line, in file order; comment / blank / invalid lines do not disturb the others
-  return got == want and bool(rl) == bool(want)
+  # semantic oracle (no assumption on how the rules are stored): the list is non-empty iff it has a valid
+  # rule, and a name is in it iff some valid line matches it; comment / blank / invalid lines do not
+  # disturb the others, and a rule keeps its own groups and back-references
+  if bool(rl) != bool(want):
+    return False
+  for name in PROBES:
+    if (name in rl) != any(r.search(name) is not None for r in want):
+      raise AssertionError('membership of %r differs from the rules in the file' % name)
+  return True
 
 
 def C12_reload(a: int, b: int, mode: int) -> bool:
@@ -198,11 +205,12 @@ def C12_reload(a: int, b: int, mode: int) -> bool:
   quiet(regexlist)
   try:
     rl.read_list()
-    first = [r.pattern for r in rl.regex_list]
+    first_rules = [r for r in [_valid(LINES[a])] if r is not None]
+    first_ok = _same_members(rl, first_rules)
     if mode == 0:
       _sh.copyfile(_file_for((b, len(LINES), len(LINES))), path)
       os.utime(path, (2000, 2000))
-      want = [r.pattern for r in [_valid(pick(LINES, b))] if r is not None]
+      want = [r for r in [_valid(pick(LINES, b))] if r is not None]
     elif mode == 1:
       open(path, 'w').close()
       os.utime(path, (2000, 2000))
@@ -211,14 +219,23 @@ def C12_reload(a: int, b: int, mode: int) -> bool:
       os.remove(path)
       want = []
     else:
-      want = first
+      want = first_rules
     rl.read_list()
   finally:
     regexlist.log = old_log
     if os.path.exists(path):
       os.remove(path)
   cover('reloaded')
-  return first == [r.pattern for r in [_valid(LINES[a])] if r is not None] and [r.pattern for r in rl.regex_list] == want and bool(rl) == bool(want)
+  return first_ok and _same_members(rl, want)
+
+
+def _same_members(rl, rules):
+  if bool(rl) != bool(rules):
+    return False
+  for name in PROBES:
+    if (name in rl) != any(r.search(name) is not None for r in rules):
+      return False
+  return True
 
 
 def C12_contains(name: str, a: int, b: int) -> bool:
@@ -288,7 +305,7 @@ HARNESSES = [
                  'timestamp: any non-negative symbolic int, -1, or a table of fractional values; value from a table incl. NaN, +-inf, ints; '
                  'MIN_TIMESTAMP_RESOLUTION from {0,1,10,60,7,3600} (symbolic resolution makes `ts // res * res` non-linear)',
                  'domain: timestamps finite and (>= 0 or == -1), see DESIGN.md 2.5']),
-  H('C12_read_list', quick=dict(timeout=200), covers=['read'],
+  H('C12_read_list', quick=dict(timeout=280, shards=[('a%d' % k, 'a %% 5 == %d' % k) for k in range(5)]), covers=['read'],
     encodes=['carbon.regexlist:RegexList.read_list', 'carbon.regexlist:RegexList.__bool__'],
     assumptions=['list files of <= 3 lines drawn by symbolic indices from {2 valid patterns, comment, blank, whitespace, invalid, 3rd valid}; files written at import time']),
   H('C12_reload', quick=dict(timeout=280, shards=[('mode%d' % k, 'mode == %d' % k) for k in range(4)], extra_pre=['a <= 2 and b <= 2']), thorough=dict(timeout=600, shards=[('mode%d' % k, 'mode == %d' % k) for k in range(4)]), covers=['reloaded'], twin_pre=['mode == 0 and a <= 1 and b <= 1'],
